@@ -509,6 +509,18 @@ def check_detector(rec, obs, spec, X, label, t, base, record=True):
             obs.add(f"{name}: changepoints mirrored under time reversal (not demanded by the statement)", sorted(n - c for c in o2) != out,
                     {"kwargs": spec["kwargs"], "X": X, "changepoints": out, "reversed_run_mirrored": sorted(n - c for c in o2)})
         return
+    if name == "MovingWindow" and t["type"] in ("shift", "perm"):
+        # the score series itself (no decision involved, so no margin rule): the moving-window score at every position is a change score of two
+        # windows, hence unchanged by a per-column shift / a column permutation -- also when X holds integers and the shifted copy floats
+        try:
+            sa = np.asarray(make_detector(spec).fit(X).transform_scores(X), dtype=float).reshape(-1)
+            sb = np.asarray(make_detector(spec).fit(apply_transform(X, t)).transform_scores(apply_transform(X, t)), dtype=float).reshape(-1)
+            if sa.shape != sb.shape or not np.allclose(sa, sb, rtol=1e-6, atol=1e-6 * (1.0 + float(np.max(np.abs(sa))))):
+                k = int(np.argmax(np.abs(sa - sb))) if sa.shape == sb.shape else -1
+                rec.violation(f"{name}:{tlabel(t)}:scores", f"{name}({spec['kwargs']}) on n={n},p={p} ({X.dtype} data): transform_scores differ between X and the "
+                              f"transformed X ({t}), e.g. position {k}: {sa[k] if k >= 0 else sa.shape!r} vs {sb[k] if k >= 0 else sb.shape!r}", "C12.detector", inp)
+        except Exception:                                                       # noqa: BLE001  (raising runs are judged below)
+            pass
     if not stable:
         if record:
             rec.case(fp, False)
